@@ -24,6 +24,10 @@ REQUIRED_HOOKS = [
     "op:cov",
     "op:cache_clear",
     "op:tf_session",
+    "op:localgrid",
+    "op:sph",
+    "edit:introspected-attribute",
+    "construct:all-defaults",
     "session:same-object-call",
     "session:edit-returned",
     "session:edit-input",
@@ -37,10 +41,17 @@ RULE = (
     "One case = one random HISTORY of 10-40 operations executed on the real library inside a worker process whose module-level "
     "caches are never reset by the harness (later histories run on whatever earlier ones left behind). Operations (weights per family: "
     "mixed / angular-edit / atom-mol / transform / tables): AngularGrid(method in 4, by degree or by size, Python or NumPy int, cache on/off); "
-    "in-place edit (fill, one element, one row/slice, or assignment through the setter) of points/weights of ANY array previously returned "
-    "in this history (angular grids, shell grids, AtomGrid.points/.weights, MolGrid.points/.weights/.atweights, transformed 1-D grids, arrays "
-    "returned by transform calls, Coulomb parameter arrays, covalent-radius arrays) - every edit writes the unique sentinel "
-    "-(2^40 + 64*history + op); AtomGrid(degrees | sizes | from_pruned; centre; rotate 0 or seed); get_shell_grid(i, r_sq); integrate; "
+    "in-place edit (fill, one element, one row/slice, or assignment through the setter) of ANY array previously returned in this history: "
+    "the targets are found by INTROSPECTION of every live object - every ndarray- or number-list-valued public property / public instance attribute, "
+    "grid-valued attributes and lists of grids followed one level (so: points, weights, AtomGrid.center/.indices/.degrees/.rgrid.points/.rgrid.weights, "
+    "MolGrid.atcoords/.indices/.aim_weights/.atweights/.atgrids[i].*, LocalGrid.center/.indices/.points/.weights, whatever a later version adds) - plus arrays "
+    "returned by get_shell_grid, convert_cartesian_to_spherical, get_localgrid/get_atomic_grid/MolGrid[i], transform calls, transform_1d_grid, the Coulomb "
+    "loader and get_cov_radii; every edit writes the unique sentinel -(2^40 + 64*history + op). An edit of an attribute other than points/weights (or of an object "
+    "that shares state with others by design: LocalGrid views, stored atomic grids) only excludes THAT object group from later comparisons of itself; "
+    "objects constructed later, other live objects and module-level state are always compared. Grids are also built with every argument at its DEFAULT "
+    "(AngularGrid(), AtomGrid(rgrid), MolGrid.from_size(atnums, coords, size, rgrid=...)), default kwargs are omitted at random, and after an edit the atomic grid is "
+    "re-built both with center=None and with the explicit origin; each re-construction is compared with the model (incl. center, degrees, radial grid, atcoords) and, "
+    "attribute by attribute (introspection again), with a snapshot of the FIRST construction with those arguments; AtomGrid(degrees | sizes | from_pruned; centre; rotate 0 or seed); get_shell_grid(i, r_sq); integrate; "
     "MolGrid(1-3 atoms, Becke or explicit weights, store on/off); transform / deriv / deriv2 / deriv3 / inverse / deriv*_inverse / "
     "transform_1d_grid / set_maximum_parameter_b in random order on LinearInfinite/Exp/Power (b given, or inferred from the first array seen) "
     "and Hyperbolic instances; transform SESSIONS on one instance of any of the 12 transform classes (Exp, Power, LinearInfinite, Hyperbolic, Becke, Knowles, "
@@ -64,7 +75,8 @@ ASSUMPTIONS = [
     "scale b of a b-inferring transform = maximum of the first array passed to a method whose result depends on b (for LinearInfiniteRTransform deriv2/deriv3 "
     "are identically zero and do not depend on b: the workload never uses them as the first call on an instance without b)",
     "arrays of a returned object that the workload edited are excluded from later comparisons of THAT object only; objects constructed later are always compared in full",
-    "LocalGrid objects (views by design) are not edit targets; k-d trees are C10's subject",
+    "LocalGrid objects are views of their parent by design: they are edit targets, an edit of parent or child excludes both from later comparisons of themselves (k-d trees are C10's subject)",
+    "editing an array that IS an object's own state (grid.weights, atgrid.center, atgrid.rgrid.points, molgrid.atcoords ...) may change that object; the property forbids effects on OTHER / LATER objects and on module-level state only",
     "history independence of the covalent-radius tables is judged against a snapshot taken through the public API before the first history",
 ]
 LEVEL_TEXT = (
@@ -76,13 +88,13 @@ TECHNIQUE = "runtime monitoring: history monitor with absolute reference model (
 METHODS = ["lebedev", "spherical", "maxdet", "ahrens_beylkin"]
 SIZE_CAP_ANG = {"lebedev": 1202, "spherical": 1000, "maxdet": 1700, "ahrens_beylkin": 800}
 SIZE_CAP_SHELL = {"lebedev": 350, "spherical": 330, "maxdet": 400, "ahrens_beylkin": 320}
-OPS = ["ang_new", "edit", "atom_new", "shell", "integrate", "mol_new", "tf_new", "tf_call", "gauss", "cov", "cache_clear", "tf_session"]
+OPS = ["ang_new", "edit", "atom_new", "shell", "integrate", "mol_new", "tf_new", "tf_call", "gauss", "cov", "cache_clear", "tf_session", "localgrid", "sph"]
 WEIGHTS = {
-    "mixed": [5, 6, 3, 3, 2, 1, 1.5, 4, 2, 1, 0.4, 2],
-    "angular-edit": [8, 8, 1, 1, 1, 0, 0, 0, 0, 0, 0.6, 0],
-    "atom-mol": [2, 6, 5, 5, 2, 2.5, 0, 0, 0, 0, 0.3, 0],
-    "transform": [0.5, 3, 0, 0, 0, 0, 2, 8, 0, 0, 0, 5],
-    "tables": [0.5, 5, 0, 0, 0, 0, 0, 0, 5, 3, 0, 0],
+    "mixed": [5, 7, 3, 3, 2, 1, 1.5, 4, 2, 1, 0.4, 2, 1, 0.7],
+    "angular-edit": [8, 8, 1, 1, 1, 0, 0, 0, 0, 0, 0.6, 0, 0.7, 0],
+    "atom-mol": [2, 8, 5, 4, 2, 2.5, 0, 0, 0, 0, 0.3, 0, 1.5, 1],
+    "transform": [0.5, 3, 0, 0, 0, 0, 2, 8, 0, 0, 0, 5, 0, 0],
+    "tables": [0.5, 5, 0, 0, 0, 0, 0, 0, 5, 3, 0, 0, 0, 0],
 }
 SHARE = {"mixed": 0.40, "angular-edit": 0.20, "atom-mol": 0.20, "transform": 0.12, "tables": 0.08}
 COST = {"mixed": 1.0, "angular-edit": 0.8, "atom-mol": 1.6, "transform": 0.4, "tables": 0.3}
@@ -209,6 +221,9 @@ class History:
     # -------------------------------------------------------------------------------------------- bookkeeping
     def add(self, rec):
         rec.setdefault("dirty", set())
+        if "group" not in rec:
+            self._gid = getattr(self, "_gid", 0) + 1
+            rec["group"] = self._gid
         self.live.append(rec)
         if len(self.live) > MAX_LIVE:
             self.live.pop(0)
@@ -219,7 +234,7 @@ class History:
 
     def arrays_of(self, rec):
         k = rec["kind"]
-        if k in ("ang", "shell", "oned"):
+        if k in ("ang", "shell", "oned", "local"):
             return ["points", "weights"]
         if k == "atom":
             return ["points", "weights"]
@@ -258,12 +273,34 @@ class History:
         kw = dict(spec["kw"])
         if spec["centre"] is not None:
             kw["center"] = np.array(spec["centre"])
+        elif spec.get("explicit_origin"):
+            kw["center"] = np.zeros(3)
+        if not kw:
+            self.ctx.hit("construct:all-defaults")
         if spec["mode"] == "pruned":
             return AtomGrid.from_pruned(rg, spec["radius"], **kw), rg
         return AtomGrid(rg, **kw), rg
 
-    def check_atom(self, clause, subj, at, spec, which=("points", "weights"), indices=True):
-        return H.check_atom_arrays(self.ctx, clause, subj, at.points, at.weights, at.indices if indices else None, spec, which=which)
+    def check_atom(self, clause, subj, at, spec, which=("points", "weights"), indices=True, attributes=False):
+        ok = H.check_atom_arrays(self.ctx, clause, subj, at.points, at.weights, at.indices if indices else None, spec, which=which)
+        if attributes:
+            # the other array-valued public attributes the model knows: centre, per-shell degrees, radial grid
+            c = np.zeros(3) if spec["centre"] is None else np.asarray(spec["centre"], dtype=float)
+            for name, got, want in (
+                ("center", np.asarray(at.center, dtype=float), c),
+                ("degrees", np.asarray(list(at.degrees), dtype=float), np.asarray([d for d, _ in spec["rows"]], dtype=float)),
+                ("rgrid.points", np.asarray(at.rgrid.points, dtype=float), np.asarray(spec["r"], dtype=float)),
+                ("rgrid.weights", np.asarray(at.rgrid.weights, dtype=float), np.asarray(spec["wr"], dtype=float)),
+            ):
+                good = H.same_bits(got, want)
+                sig = None
+                det = {"hist": self.hid, "op": self.op}
+                if not good:
+                    sig, d2 = H.corruption_sig(got, want)
+                    det.update(d2)
+                    ok = False
+                self.ctx.check(clause, f"{subj}.{name}", good, sig=sig, detail=det)
+        return ok
 
     def observe_atom(self, spec, why):
         """Deciding: construct the same atomic grid again and compare with the model and with its first construction."""
@@ -272,21 +309,54 @@ class History:
             at, _ = self.build_atom(spec)
         if not gd.ok:
             return None
-        self.check_atom("atomgrid-product-identity", subj, at, spec)
+        self.check_atom("atomgrid-product-identity", subj, at, spec, attributes=True)
         if "snap" in spec:
             ok = H.same_bits(at.points, spec["snap"][0]) and H.same_bits(at.weights, spec["snap"][1])
             sig = None
             if not ok:
                 sig, _ = H.corruption_sig(at.weights, spec["snap"][1])
             self.ctx.check("same-arguments-same-result", subj, ok, sig=sig, detail={"observed_after": why, "hist": self.hid, "op": self.op})
+        if "snap_public" in spec:
+            self.compare_snapshot(subj, at, spec["snap_public"], why)
+        if spec["centre"] is None and self.rng.random() < 0.5:
+            # the same grid with the centre given the OTHER way (explicit origin <-> default None) must be the same grid
+            twin = dict(spec)
+            twin["explicit_origin"] = not spec.get("explicit_origin", False)
+            with self.guard(subj + " twin") as gd2:
+                at2, _ = self.build_atom(twin)
+            if gd2.ok:
+                self.check_atom("atomgrid-product-identity", subj + (" explicit-origin" if twin["explicit_origin"] else " default-centre"), at2, spec, attributes=True)
         for d, s in set(spec["rows"]):
             self.touched[(spec["method"], d, s)] = True
         return at
+
+    def compare_snapshot(self, subj, obj, snap, why):
+        """Every array-valued public attribute found by introspection equals what the FIRST construction with these
+        arguments showed (bitwise)."""
+        bad = H.compare_public(obj, snap)
+        self.ctx.count("public-arrays-compared-with-first-construction", len(snap))
+        if not bad:
+            self.ctx.check("same-arguments-same-result", subj + ".<public arrays>", True)
+            return
+        for name, got, ref in bad[:3]:
+            sig, det = ("attribute-missing", {}) if got is None else H.corruption_sig(got, ref)
+            det.update({"attribute": name, "observed_after": why, "hist": self.hid, "op": self.op})
+            self.ctx.check("same-arguments-same-result", f"{subj}.{name}", False, sig=sig, detail=det)
 
     def build_mol(self, ms):
         from grid.becke import BeckeWeights
         from grid.molgrid import MolGrid
 
+        if ms.get("ctor") == "from_size":
+            from grid.basegrid import OneDGrid
+
+            sp0 = ms["atoms"][0]
+            rg = OneDGrid(np.array(sp0["r"]), np.array(sp0["wr"]), (0, np.inf))
+            coords = np.array([sp["centre"] for sp in ms["atoms"]])
+            self.ctx.hit("construct:all-defaults")
+            if ms["store"]:
+                return MolGrid.from_size(np.array(ms["atnums"]), coords, ms["size"], rgrid=rg, store=True)
+            return MolGrid.from_size(np.array(ms["atnums"]), coords, ms["size"], rgrid=rg)  # aim_weights, rotate, store: defaults
         ats = [self.build_atom(sp)[0] for sp in ms["atoms"]]
         size = sum(a.size for a in ats)
         aim = BeckeWeights(order=3) if ms["aim"] == "becke" else np.ones(size)
@@ -300,6 +370,12 @@ class History:
             ctx.check(clause, subj + ".indices", False, sig="atom-blocks-differ-from-model", detail={"got": np.asarray(mol.indices)[:6], "want": ind[:6]})
             return
         which = tuple(n for n, a in (("points", "points"), ("weights", "atweights")) if a not in skip)
+        want_c = np.array([np.zeros(3) if sp["centre"] is None else sp["centre"] for sp in ms["atoms"]], dtype=float)
+        goodc = H.same_bits(np.asarray(mol.atcoords, dtype=float), want_c)
+        sigc = None
+        if not goodc:
+            sigc, _ = H.corruption_sig(mol.atcoords, want_c)
+        ctx.check(clause, subj + ".atcoords", goodc, sig=sigc)
         for i, sp in enumerate(ms["atoms"]):
             a, b = int(ind[i]), int(ind[i + 1])
             H.check_atom_arrays(ctx, clause, subj, mol.points[a:b], mol.atweights[a:b], None, sp, which=which)
@@ -327,6 +403,8 @@ class History:
             if not ok:
                 sig, _ = H.corruption_sig(mol.weights, ms["snap"][1])
             self.ctx.check("same-arguments-same-result", subj, ok, sig=sig, detail={"observed_after": why, "hist": self.hid, "op": self.op})
+        if "snap_public" in ms:
+            self.compare_snapshot(subj, mol, ms["snap_public"], why)
         return mol
 
     def fresh_tf(self, rec):
@@ -438,6 +516,8 @@ class History:
         """Every array of a previously returned object that the workload did NOT edit must still equal the model."""
         ctx = self.ctx
         k = rec["kind"]
+        if rec.get("tainted"):
+            return  # the workload edited state this object legitimately owns/shares: its own later values are not judged
         clean = [n for n in self.arrays_of(rec) if n not in rec["dirty"]]
         if not clean:
             return
@@ -457,7 +537,7 @@ class History:
             self.check_atom(clause, f"earlier AtomGrid[{rec['spec']['method']}]", rec["obj"], rec["spec"], which=which)
         elif k == "mol":
             self.check_mol(clause, f"earlier MolGrid[{rec['spec']['aim']}]", rec["obj"], rec["spec"], skip=rec["dirty"])
-        elif k in ("tfres", "gauss", "cov", "oned"):
+        elif k in ("tfres", "gauss", "cov", "oned", "local", "sph"):
             for n in clean:
                 ref = rec["ref"][n]
                 got = self.get_array(rec, n)
@@ -526,9 +606,17 @@ class History:
         method = method or METHODS[int(rng.integers(4))]
         kw, (d, s) = _request(rng, method, SIZE_CAP_ANG[method])
         cache = bool(rng.random() < 0.6)
+        alldef = rng.random() < 0.06
+        if alldef:
+            method, cache, kw = "lebedev", True, {}
+            d, s = (int(v) for v in datafiles.resolve("lebedev", degree=50))
         subj = f"AngularGrid[{method}] cache={'on' if cache else 'off'}"
         with self.guard(subj) as gd:
-            g = AngularGrid(method=method, cache=cache, **kw)
+            if alldef:
+                g = AngularGrid()  # every argument left at its default
+                self.ctx.hit("construct:all-defaults")
+            else:
+                g = AngularGrid(method=method, cache=cache, **kw)
         if not gd.ok:
             return
         self.ctx.hit("op:ang_new")
@@ -538,43 +626,15 @@ class History:
         self.add({"kind": "ang", "obj": g, "method": method, "deg": d, "size": s, "label": f"AngularGrid[{method}]"})
         self.log.append(f"ang_new({method},{d},{'c' if cache else 'n'})")
 
-    def op_edit(self):
-        rng = self.rng
-        cands = [(rec, n) for rec in self.live for n in self.arrays_of(rec)]
-        if not cands:
-            return self.op_ang_new()
-        rec, name = cands[int(rng.integers(len(cands)))]
-        target = f"{rec['kind']}.{name}"
-        S = H.sentinel(self.hid, self.op, target)
-        mode = ["fill", "one", "slice", "assign"][int(rng.choice(4, p=[0.45, 0.25, 0.2, 0.1]))]
-        try:
-            arr = self.get_array(rec, name)
-            if mode == "assign" and "arrays" not in rec:
-                try:
-                    setattr(rec["obj"], name, np.full(arr.shape, S))
-                except AttributeError:
-                    mode = "fill"
-            elif mode == "assign":
-                mode = "fill"
-            if mode == "fill":
-                arr[...] = S
-            elif mode == "one":
-                arr.flat[int(rng.integers(arr.size))] = S
-            elif mode == "slice":
-                j = int(rng.integers(len(arr)))
-                arr[j : j + max(1, len(arr) // 3)] = S
-        except ValueError as exc:
-            if "read-only" in str(exc):
-                self.ctx.count("edit-rejected:array-is-read-only")
-                return
-            raise
-        rec["dirty"].add(name)
-        if rec["kind"] == "mol" and name == "atweights":
-            pass
-        self.ctx.hit("op:edit")
-        self.ctx.count(f"class:edit:{target}:{mode}")
-        self.log.append(f"edit({target},{mode})")
-        why = f"in-place edit ({mode}) of {target} writing {S:.0f}"
+    def taint(self, rec):
+        """The object (and everything that legitimately shares state with it: parent/child views, stored atomic grids)
+        is excluded from later comparisons of ITSELF; objects constructed later are always compared in full."""
+        for r in self.live:
+            if r is rec or r.get("group") == rec.get("group"):
+                r["tainted"] = True
+
+    def observe_related(self, rec, why):
+        """Deciding observations aimed at what an edited object was built from: fresh constructions equal the model."""
         k = rec["kind"]
         if k == "ang":
             self.observe_angular(rec["method"], rec["deg"], rec["size"], why)
@@ -596,6 +656,81 @@ class History:
             self.observe_gauss(rec["sym"], why)
         elif k == "cov":
             self.observe_cov(rec["atn"], rec["ctype"], why)
+        elif k in ("local", "sph"):
+            self.observe_related(rec["parent"], why)
+
+    def op_edit(self):
+        """In-place edit of ANY array-valued public attribute / returned array of any live object (found by introspection)."""
+        rng = self.rng
+        classic, other = [], []
+        for rec in self.live:
+            if "arrays" in rec:
+                classic += [(rec, n, None) for n in rec["arrays"]]
+                continue
+            found = H.public_arrays(rec["obj"])
+            for n, holder in found.items():
+                if n in ("points", "weights") or (rec["kind"] == "mol" and n == "atweights"):
+                    classic.append((rec, n, None))
+                else:
+                    other.append((rec, n, holder))
+        if not classic and not other:
+            return self.op_ang_new()
+        pool = other if (other and (not classic or rng.random() < 0.4)) else classic
+        rec, name, holder = pool[int(rng.integers(len(pool)))]
+        cls = type(rec["obj"]).__name__ if "obj" in rec else rec["kind"]
+        target = f"{rec['kind']}.{name}" if holder is None else f"{cls}.{name}"
+        S = H.sentinel(self.hid, self.op, target)
+        mode = ["fill", "one", "slice", "assign"][int(rng.choice(4, p=[0.45, 0.25, 0.2, 0.1]))]
+        try:
+            if holder is not None:
+                # introspected attribute (center, indices, degrees, rgrid.points, atcoords, aim_weights ...)
+                if mode == "assign":
+                    mode = "fill"
+                if isinstance(holder, list):
+                    if mode == "fill":
+                        holder[:] = [int(S)] * len(holder)
+                    else:
+                        holder[int(rng.integers(len(holder)))] = int(S)
+                        mode = "one"
+                elif mode == "fill":
+                    holder[...] = S
+                elif mode == "one":
+                    holder.flat[int(rng.integers(holder.size))] = S
+                else:
+                    jj = int(rng.integers(len(holder)))
+                    holder[jj : jj + max(1, len(holder) // 3)] = S
+            else:
+                arr = self.get_array(rec, name)
+                if mode == "assign" and "arrays" not in rec:
+                    try:
+                        setattr(rec["obj"], name, np.full(arr.shape, S))
+                    except AttributeError:
+                        mode = "fill"
+                elif mode == "assign":
+                    mode = "fill"
+                if mode == "fill":
+                    arr[...] = S
+                elif mode == "one":
+                    arr.flat[int(rng.integers(arr.size))] = S
+                elif mode == "slice":
+                    jj = int(rng.integers(len(arr)))
+                    arr[jj : jj + max(1, len(arr) // 3)] = S
+        except ValueError as exc:
+            if "read-only" in str(exc):
+                self.ctx.count("edit-rejected:array-is-read-only")
+                return
+            raise
+        if holder is not None:
+            self.taint(rec)
+            self.ctx.hit("edit:introspected-attribute")
+        else:
+            rec["dirty"].add(name)
+            if sum(1 for r in self.live if r.get("group") == rec["group"]) > 1:
+                self.taint(rec)  # views / shared objects: the relatives change legitimately
+        self.ctx.hit("op:edit")
+        self.ctx.count(f"class:edit:{target}:{mode}")
+        self.log.append(f"edit({target},{mode})")
+        self.observe_related(rec, f"in-place edit ({mode}) of {target} writing {S:.0f}")
 
     def make_atom_spec(self, small=False):
         rng = self.rng
@@ -606,7 +741,17 @@ class History:
         cap = SIZE_CAP_SHELL[method] if not small else min(SIZE_CAP_SHELL[method], 200)
         rows_pool = _pool(method, cap)
         dmax, smax = rows_pool[-1]
-        mode = ["degrees", "degree1", "sizes", "size1", "pruned"][int(rng.integers(5))]
+        mode = ["degrees", "degree1", "sizes", "size1", "pruned", "default"][int(rng.integers(6))]
+        if mode == "default":
+            if small:
+                mode = "degree1"
+            else:
+                # AtomGrid(rgrid): every argument left at its default (degrees=[50], center=None, rotate=0, lebedev)
+                method = "lebedev"
+                n = min(n, 3)
+                r, wr = r[:n], wr[:n]
+                spec = {"method": method, "r": r, "wr": wr, "mode": "default", "rows": [tuple(int(v) for v in datafiles.resolve(method, degree=50))] * n, "centre": None, "rotate": 0, "kw": {}}
+                return spec
         spec = {"method": method, "r": r, "wr": wr, "mode": mode}
         kw = {"method": method}
         if mode == "degrees":
@@ -646,7 +791,10 @@ class History:
         spec["rows"] = [(int(d), int(s)) for d, s in rows]
         spec["centre"] = None if rng.random() < 0.4 else rng.uniform(-3, 3, 3)
         spec["rotate"] = 0 if rng.random() < 0.5 else int(rng.integers(1, 100000))
-        kw["rotate"] = spec["rotate"]
+        if spec["rotate"] or rng.random() < 0.5:
+            kw["rotate"] = spec["rotate"]  # else: left at its default
+        if method == "lebedev" and rng.random() < 0.5:
+            del kw["method"]  # default method
         spec["kw"] = kw
         return spec
 
@@ -659,9 +807,10 @@ class History:
             return
         self.ctx.hit("op:atom_new")
         self.ctx.count(f"class:atom_new:{spec['method']}:{spec['mode']}:{'rotated' if spec['rotate'] else 'unrotated'}")
-        self.check_atom("atomgrid-product-identity", subj, at, spec)
+        self.check_atom("atomgrid-product-identity", subj, at, spec, attributes=True)
         _c05_identity(self.ctx, at, spec, rg)
         spec["snap"] = (np.array(at.points), np.array(at.weights))
+        spec["snap_public"] = H.snapshot_public(at)
         self.specs.append(spec)
         for d, s in set(spec["rows"]):
             self.touched[(spec["method"], d, s)] = True
@@ -669,7 +818,7 @@ class History:
         self.log.append(f"atom_new({spec['method']},{spec['mode']},{len(spec['rows'])})")
 
     def op_shell(self):
-        atoms = [r for r in self.live if r["kind"] == "atom"]
+        atoms = [r for r in self.live if r["kind"] == "atom" and not r.get("tainted")]
         if not atoms:
             return self.op_atom_new()
         rec = atoms[int(self.rng.integers(len(atoms)))]
@@ -691,7 +840,7 @@ class History:
 
     def op_integrate(self):
         rng = self.rng
-        cands = [r for r in self.live if r["kind"] in ("ang", "atom", "mol") and "weights" not in r["dirty"] and not (r["kind"] == "mol" and (r["spec"]["aim"] != "ones" or r["dirty"]))]
+        cands = [r for r in self.live if r["kind"] in ("ang", "atom", "mol") and not r.get("tainted") and "weights" not in r["dirty"] and not (r["kind"] == "mol" and (r["spec"]["aim"] != "ones" or r["dirty"]))]
         if not cands:
             return self.op_ang_new()
         rec = cands[int(rng.integers(len(cands)))]
@@ -734,7 +883,17 @@ class History:
             sp["centre"] = c
             atoms.append(sp)
         syms = list(ELEMENTS.values())
+        from_size = rng.random() < 0.3
+        if from_size:
+            # MolGrid.from_size(atnums, atcoords, size, rgrid=...): one radial grid, one size, rotate=37 and Becke by default
+            sz = int(rng.integers(1, min(SIZE_CAP_SHELL[method], 200) + 1))
+            row = tuple(int(v) for v in datafiles.resolve("lebedev", size=sz))
+            method = "lebedev"
+            a0 = atoms[0]
+            atoms = [{"method": "lebedev", "r": a0["r"], "wr": a0["wr"], "mode": "size1", "rows": [row] * len(a0["r"]), "centre": c, "rotate": 37, "kw": {"degrees": None, "sizes": [sz], "rotate": 37}} for c in centres]
         ms = {"is_mol": True, "atoms": atoms, "atnums": [int(syms[int(rng.integers(len(syms)))]) for _ in range(nat)], "aim": "becke" if rng.random() < 0.5 else "ones", "store": bool(rng.random() < 0.5)}
+        if from_size:
+            ms.update({"ctor": "from_size", "size": sz, "aim": "becke"})
         subj = f"MolGrid[{method}:{ms['aim']}:store={ms['store']}]"
         with self.guard(subj) as gd:
             mol = self.build_mol(ms)
@@ -744,6 +903,7 @@ class History:
         self.ctx.count(f"class:mol_new:{method}:{ms['aim']}:atoms={nat}")
         self.check_mol("molgrid-blocks-identity", subj, mol, ms)
         ms["snap"] = (np.array(mol.points), np.array(mol.weights))
+        ms["snap_public"] = H.snapshot_public(mol)
         self.specs.append(ms)
         for sp in atoms:
             for d, s in set(sp["rows"]):
@@ -1122,6 +1282,57 @@ class History:
                 why = f"in-place change of the argument array ({which})"
             self.session_sweep(ss, why)
 
+    def op_localgrid(self):
+        """LocalGrid objects (MolGrid.get_atomic_grid / MolGrid[i] / Grid.get_localgrid): their arrays, centre and indices
+        become edit targets; they share state with their parent by design (same group)."""
+        rng = self.rng
+        cands = [r for r in self.live if r["kind"] in ("mol", "ang") and not r.get("tainted") and not r["dirty"]]
+        if not cands:
+            return self.op_ang_new()
+        par = cands[int(rng.integers(len(cands)))]
+        subj = f"{par['label']}.localgrid"
+        with self.guard(subj) as gd:
+            if par["kind"] == "mol":
+                i = int(rng.integers(len(par["spec"]["atoms"])))
+                lg = par["obj"].get_atomic_grid(i) if rng.random() < 0.5 else par["obj"][i]
+            else:
+                c = par["obj"].points[int(rng.integers(par["obj"].size))]
+                lg = par["obj"].get_localgrid(np.array(c), np.inf if rng.random() < 0.5 else float(rng.uniform(0.3, 1.5)))
+        if not gd.ok:
+            return
+        self.ctx.hit("op:localgrid")
+        if not hasattr(lg, "points") or lg.points.size == 0:
+            return
+        if par["kind"] == "mol" and type(lg).__name__ == "AtomGrid":
+            self.add({"kind": "local", "obj": lg, "parent": par, "group": par["group"], "label": "stored AtomGrid of a MolGrid", "ref": {}, "dirty": {"points", "weights"}})
+        else:
+            self.add({"kind": "local", "obj": lg, "parent": par, "group": par["group"], "label": f"LocalGrid of {par['kind']}", "ref": {"points": np.array(lg.points), "weights": np.array(lg.weights)}})
+        self.log.append("localgrid")
+
+    def op_sph(self):
+        """AtomGrid.convert_cartesian_to_spherical(): the returned array becomes an edit target."""
+        atoms = [r for r in self.live if r["kind"] == "atom" and not r.get("tainted")]
+        if not atoms:
+            return self.op_atom_new()
+        par = atoms[int(self.rng.integers(len(atoms)))]
+        subj = "AtomGrid.convert_cartesian_to_spherical"
+        with self.guard(subj) as gd:
+            res = par["obj"].convert_cartesian_to_spherical()
+        if not gd.ok:
+            return
+        self.ctx.hit("op:sph")
+        prev = par.get("sph_ref")
+        if prev is not None:
+            ok = H.same_bits(np.asarray(res), prev)
+            sig = None
+            if not ok:
+                sig, _ = H.corruption_sig(res, prev)
+            self.ctx.check("same-arguments-same-result", subj, ok, sig=sig, detail={"hist": self.hid, "op": self.op})
+        else:
+            par["sph_ref"] = np.array(res)
+        self.add({"kind": "sph", "parent": par, "arrays": {"result": res}, "label": subj + " result", "ref": {"result": np.array(res)}})
+        self.log.append("sph")
+
     def op_gauss(self):
         syms = list(ELEMENTS)
         sym = syms[int(self.rng.integers(len(syms)))]
@@ -1184,7 +1395,7 @@ def _c05_identity(ctx, at, spec, rg):
         if spec["kw"].get("sizes") is not None:
             req["sizes"] = spec["kw"]["sizes"]
         else:
-            req["degrees"] = spec["kw"]["degrees"]
+            req["degrees"] = spec["kw"].get("degrees", [50])
     atomgrid_c05.check_atomgrid_identity(ctx, at, req, tag=f"history:AtomGrid[{spec['method']}]")
 
 
